@@ -20,12 +20,20 @@ type LifeScript struct {
 	PolA int     `json:"pa"` // complete policy sets (6 bits)
 	PolB int     `json:"pb"`
 	Ops  []SOp   `json:"ops"`
+	// NoKeyA: party A has no long-term key (the application has not loaded or generated one yet): no key exchange
+	// with it can complete, and what it owes the user's text does not change
+	NoKeyA bool `json:"nokeya,omitempty"`
 }
 
 func newLifeSess(sc *LifeScript, o *sim.Outcome) *Sess {
 	ss := &SessScript{Cfg: sc.Cfg, PolA: sc.PolA, PolB: sc.PolB}
 	ss.Cfg.V = 0
-	return newSess(ss, o)
+	s := newSess(ss, o)
+	if sc.NoKeyA {
+		s.W.P[0].C.SetOurKeys(nil)
+		o.Class("party-without-long-term-key")
+	}
+	return s
 }
 
 type protTok struct {
@@ -289,6 +297,17 @@ func TestProp_C03_Policies(t *testing.T) {
 				continue
 			}
 			sc := &LifeScript{Cfg: SessCfg{V: 3, SeedA: 4, SeedB: 7, KeyA: 0, KeyB: 3}, PolA: pa, PolB: pb, Ops: life}
+			sim.Judge(t, "C03policies", sc)
+		}
+	}
+	// the same lifecycle with a party that has no long-term key yet: every policy set of that party against two of the peer's
+	for pa := 0; pa < 64; pa++ {
+		for _, pb := range []int{3, pa | 3, 2 | 4, 1} {
+			idx++
+			if idx%sn != si {
+				continue
+			}
+			sc := &LifeScript{Cfg: SessCfg{V: 3, SeedA: 4, SeedB: 7, KeyA: 0, KeyB: 3}, PolA: pa, PolB: pb, Ops: life, NoKeyA: true}
 			sim.Judge(t, "C03policies", sc)
 		}
 	}
